@@ -248,6 +248,13 @@ def main():
                         bad = True
         if not bad:
             chk.held(h(["compile", src]), sample={"compiled": label, "source": src[:300]} if j["id"] % 131 == 3 else None)
+    if not quick:
+        # sanitizer lanes: Miri on hostile terms over the pure machine paths, valgrind
+        # memcheck on the FFI builtins with hostile lengths
+        import lanes
+
+        lanes.miri(chk, "C10", "hostile", [chk.seed * 100 + i for i in range(16)], 40)
+        lanes.valgrind(chk, "C10", "ffi-builtins", lanes.ffi_jobs(Rng(chk.seed, 1010), 300))
     chk.assumptions = [
         "drivers are built with overflow checks + debug assertions on the crates under test; the hostile evaluation workload is repeated on a plain release build (profile `plain`) and the build is part of the violation key",
         "termination is decided on logical budgets: every evaluation has a finite ExBudget; a watchdog firing under a finite budget is a termination failure",
